@@ -110,6 +110,27 @@ enum Item {
     Eol(usize),
     Glue,
     Tag(String),
+    /// zero-width: external call number n happened here (X3)
+    Mark(usize),
+}
+
+/// how calls of EXTERNAL functions behave (RULES.md X1-X4)
+#[derive(Clone, Copy, Debug, PartialEq)]
+pub enum ExtMode {
+    /// bound, look-ahead safe: the pure host function
+    Safe,
+    /// bound, not look-ahead safe: the same, but a call from inside a string or choice text is refused
+    Unsafe,
+    /// not bound, fallbacks allowed: the Ink function of the same name
+    Fallback,
+}
+
+#[derive(Clone, Debug, PartialEq)]
+pub struct ExtCall {
+    pub name: String,
+    pub args: Vec<String>,
+    /// complete lines of this turn before the call (filled in by the line cutter)
+    pub lines_before: usize,
 }
 
 #[derive(Clone, Debug)]
@@ -144,6 +165,8 @@ pub struct TurnOut {
     /// a story error would occur here (the generator never produces such programs; a Some here
     /// means the case is outside the supported core and yields no verdict)
     pub error: Option<String>,
+    /// external calls of this turn, in order
+    pub ext_calls: Vec<ExtCall>,
 }
 
 pub struct Compiled {
@@ -412,19 +435,24 @@ pub struct State {
     prev_region: (Option<String>, Option<String>),
     error: Option<String>,
     steps: usize,
+    /// external calls of the current turn
+    ext_calls: Vec<ExtCall>,
+    /// > 0 while a string literal or choice text is being built
+    in_string: usize,
 }
 
 pub struct Vm<'a> {
     pub c: &'a Compiled,
     pub observe_globals: Vec<String>,
     pub observe_counts: Vec<String>,
+    pub ext_mode: ExtMode,
 }
 
 const STEP_LIMIT: usize = 20_000;
 
 impl<'a> Vm<'a> {
     pub fn new(c: &'a Compiled, observe_globals: Vec<String>, observe_counts: Vec<String>) -> Self {
-        Vm { c, observe_globals, observe_counts }
+        Vm { c, observe_globals, observe_counts, ext_mode: ExtMode::Safe }
     }
 
     pub fn initial(&self) -> State {
@@ -443,6 +471,8 @@ impl<'a> Vm<'a> {
             prev_region: (None, None),
             error: None,
             steps: 0,
+            ext_calls: vec![],
+            in_string: 0,
         };
         // L1: globals are initialised before play
         for (n, e) in &self.c.globals {
@@ -553,6 +583,33 @@ impl<'a> Vm<'a> {
                 let vals: Vec<V> = args.iter().map(|a| self.eval(s, a)).collect();
                 self.call_function(s, f, vals)
             }
+            Expr::Ext(f, args) => {
+                // X1: arguments left to right, then the call
+                let vals: Vec<V> = args.iter().map(|a| self.eval(s, a)).collect();
+                if s.error.is_some() {
+                    return V::Void;
+                }
+                match self.ext_mode {
+                    ExtMode::Fallback => self.call_function(s, f, vals),
+                    mode => {
+                        if mode == ExtMode::Unsafe && s.in_string > 0 {
+                            // X4: refused
+                            s.error = Some(format!("unsafe-in-string:{f}"));
+                            return V::Void;
+                        }
+                        let n = s.ext_calls.len();
+                        s.ext_calls.push(ExtCall { name: f.clone(), args: vals.iter().map(|v| v.render()).collect(), lines_before: 0 });
+                        s.out.push(Item::Mark(n));
+                        ext_value(f, &vals)
+                    }
+                }
+            }
+            Expr::Interp(parts) => {
+                s.in_string += 1;
+                let t = self.choice_text(s, parts);
+                s.in_string -= 1;
+                V::Str(t)
+            }
         }
     }
 
@@ -635,26 +692,22 @@ impl<'a> Vm<'a> {
         }
         // trim the function's output at both ends (line ends and whitespace)
         let start = out_start.min(s.out.len());
-        while s.out.len() > start {
-            match s.out.last() {
-                Some(Item::Eol(_)) => {
-                    s.out.pop();
-                }
-                Some(Item::Text(t)) if t.trim().is_empty() => {
-                    s.out.pop();
-                }
-                _ => break,
+        let blank = |i: &Item| matches!(i, Item::Eol(_)) || matches!(i, Item::Text(t) if t.trim().is_empty());
+        loop {
+            // last item that is not a call mark
+            let Some(j) = (start..s.out.len()).rev().find(|&j| !matches!(s.out[j], Item::Mark(_))) else { break };
+            if blank(&s.out[j]) {
+                s.out.remove(j);
+            } else {
+                break;
             }
         }
-        while s.out.len() > start {
-            match &s.out[start] {
-                Item::Eol(_) => {
-                    s.out.remove(start);
-                }
-                Item::Text(t) if t.trim().is_empty() => {
-                    s.out.remove(start);
-                }
-                _ => break,
+        loop {
+            let Some(j) = (start..s.out.len()).find(|&j| !matches!(s.out[j], Item::Mark(_))) else { break };
+            if blank(&s.out[j]) {
+                s.out.remove(j);
+            } else {
+                break;
             }
         }
         ret
@@ -819,8 +872,10 @@ impl<'a> Vm<'a> {
                         show = false;
                     }
                 }
+                s.in_string += 1;
                 let start = self.choice_text(s, &ci.start);
                 let only = self.choice_text(s, &ci.only);
+                s.in_string -= 1;
                 if !ci.sticky && *s.choice_counts.get(&ci.id).unwrap_or(&0) > 0 {
                     show = false;
                 }
@@ -862,6 +917,7 @@ impl<'a> Vm<'a> {
         s.out.clear();
         s.snaps.clear();
         s.steps = 0;
+        s.ext_calls.clear();
         loop {
             if s.error.is_some() {
                 break;
@@ -922,13 +978,17 @@ impl<'a> Vm<'a> {
             match it {
                 Item::Glue => {
                     // T3: remove line ends (and blank text) back to the last real text
-                    while let Some(last) = items.last() {
-                        match last {
+                    let mut j = items.len();
+                    while j > 0 {
+                        match &items[j - 1] {
+                            Item::Mark(_) => j -= 1,
                             Item::Eol(_) => {
-                                items.pop();
+                                items.remove(j - 1);
+                                j -= 1;
                             }
                             Item::Text(t) if t.trim().is_empty() && t.contains('\n') => {
-                                items.pop();
+                                items.remove(j - 1);
+                                j -= 1;
                             }
                             _ => break,
                         }
@@ -980,8 +1040,10 @@ impl<'a> Vm<'a> {
                     items.push(Item::Text(t.clone()));
                 }
                 Item::Tag(t) => items.push(Item::Tag(t.clone())),
+                Item::Mark(n) => items.push(Item::Mark(*n)),
             }
         }
+        let mut ext_calls = s.ext_calls.clone();
         let final_state = self.visible(s);
         let mut lines: Vec<LineOut> = vec![];
         let mut cur = String::new();
@@ -992,6 +1054,12 @@ impl<'a> Vm<'a> {
                 Item::Text(t) => cur.push_str(t),
                 Item::Tag(t) => tags.push(t.trim().to_string()),
                 Item::Glue => {}
+                Item::Mark(c) => {
+                    // X3: the lines complete before this call
+                    if let Some(call) = ext_calls.get_mut(*c) {
+                        call.lines_before = lines.len();
+                    }
+                }
                 Item::Eol(si) => {
                     // T6: the state at this line end, unless nothing (text or tag) follows in the turn
                     let follows = items[k + 1..n].iter().any(|x| matches!(x, Item::Text(t) if !t.trim().is_empty()) || matches!(x, Item::Tag(_)));
@@ -1009,6 +1077,7 @@ impl<'a> Vm<'a> {
             choices: s.pending.iter().filter(|p| p.visible).map(|p| p.text.clone()).collect(),
             ended: s.ended || s.pending.iter().all(|p| !p.visible),
             error: s.error.clone(),
+            ext_calls,
         }
     }
 
@@ -1046,4 +1115,31 @@ pub fn clean_ws(s: &str) -> String {
         }
     }
     out
+}
+
+/// X2: the pure function every bound external computes in the harness (re-stated here, not shared):
+/// `*_void` returns nothing, `*_str` returns `<a|b|>`, otherwise 100 + 10*first + the other arguments
+pub fn ext_value(name: &str, args: &[V]) -> V {
+    if name.ends_with("_void") {
+        return V::Void;
+    }
+    if name.ends_with("_str") {
+        let mut t = String::from("<");
+        for a in args {
+            t.push_str(&a.print());
+            t.push('|');
+        }
+        t.push('>');
+        return V::Str(t);
+    }
+    let mut acc: i32 = 100;
+    for (i, a) in args.iter().enumerate() {
+        let v = match a {
+            V::Int(i) => *i,
+            V::Bool(b) => *b as i32,
+            _ => 7,
+        };
+        acc = acc.wrapping_add(v.wrapping_mul(if i == 0 { 10 } else { 1 }));
+    }
+    V::Int(acc)
 }
